@@ -419,6 +419,29 @@ def gen_eq(rng, inst, nonlinear, must=None, init=False):
     return {"c": const, "t": terms}
 
 
+def own_stamps_same_ends(rng, ts):
+    """stamps of a constant input series that start and end with the grid but differ from it in between"""
+    lo, hi, n = ts[0], ts[-1], len(ts)
+    q = rng.random()
+    if n >= 3 and q < 0.3:
+        times = [lo + (hi - lo) * i / (n - 1) for i in range(n)]  # equidistant, same count
+        times[-1] = hi
+    else:
+        cnt = n - 2 if (n >= 3 and q < 0.7) else rng.randint(0, n + 1)
+        cands = [lo + (hi - lo) * f for f in (0.125, 0.25, 0.375, 0.5, 0.625, 0.75, 0.875)]
+        cands += [(a + b) / 2 for a, b in zip(ts, ts[1:])] + list(ts[1:-1])
+        cands = sorted(set(c for c in cands if lo < c < hi))
+        rng.shuffle(cands)
+        times = [lo] + sorted(cands[:cnt]) + [hi]
+    times = sorted(set(times))
+    if times == list(ts) and n >= 3:
+        # the same count must not mean the same stamps: move one interior stamp to the middle of its cell
+        i = rng.randint(1, n - 2)
+        mid = (ts[i - 1] + ts[i]) / 2
+        times = sorted(set(times[:i] + [mid] + times[i + 1:]))
+    return times
+
+
 def gen_instance(rng, big=False, kind=None):
     """kind: 'affine' | 'nonlinear' | 'solve' (square, well-posed affine)"""
     kind = kind or rng.choice(["affine", "affine", "nonlinear"])
@@ -464,9 +487,15 @@ def gen_instance(rng, big=False, kind=None):
         if mode:
             modes["c%d" % j] = mode
         r = rng.random()
-        if r < 0.5 or nsteps == 0:
+        if r < 0.4 or nsteps == 0:
             times = list(ts)
-        elif r < 0.8:
+        elif r < 0.62:
+            # own stamps INSIDE the horizon with the same first and last stamp as the grid: the same count as
+            # the grid with different interior stamps (e.g. an equidistant series on a non-equidistant grid),
+            # or any other count.  Every "nothing to interpolate" shortcut that compares less than all stamps
+            # (length, end points) wrongly fires on these.
+            times = own_stamps_same_ends(rng, ts)
+        elif r < 0.85:
             # coarser / shifted stamps covering the horizon
             times = sorted(set([ts[0] - 1.0, ts[-1] + 0.5] + [t for t in ts if rng.random() < 0.5]
                                + [ts[0] + (ts[-1] - ts[0]) * rng.choice([0.25, 0.5, 0.625])]))
